@@ -178,7 +178,8 @@ def result_order(ctx, s, fn, filt):
         takes = find_values(v, lambda x: x[0] == "call" and x[1].rsplit("::", 1)[-1] == "take")
         for t in takes:
             has_rev = contains_value(t[2][0], lambda x: x[0] == "call" and x[1].rsplit("::", 1)[-1] == "rev" and
-                                     contains_value(x, lambda y: y[0] == "call" and "btree" in y[1] and y[1].rsplit("::", 1)[-1] == "iter"))
+                                     contains_value(x, lambda y: y[0] == "call" and "btree" in y[1] and
+                                                    y[1].rsplit("::", 1)[-1] in ("iter", "into_iter")))
             lim = contains_value(t[2][1], lambda x: x[0] == "call" and x[1].endswith("::limit") and x[2] and x[2][0] == filt)
             if has_rev and lim:
                 good = True
